@@ -12,8 +12,9 @@ Sources, modelled line by line:
 * `src/oomd/plugins/Kill{MemoryGrowth,SwapUsage,Pressure,IOCost,PgScan}-inl.h`: `init` (the
   arguments that enter the ranking) and `rankForKilling`.
 
-The model is of the code **with the three repairs proposed in `/verif/fixes/`**
-(`C09-growth-ratio-parse.patch`, `C09-swap-total-type.patch`, `C09-pressure-mean-float.patch`);
+The model is of the code **with the repairs proposed in `/verif/fixes/`**
+(`C09-swap-total-type.patch`, `C09-pressure-mean-float.patch`) and with `min_growth_ratio` parsed as a
+fraction (repaired in `/repo` by commit 281abd7, found independently by C12 and C09);
 the behaviour of the unrepaired code is kept as `Variant.legacy` so that the defects are stated
 (and proved, `OomdProps/C09.lean`) as counterexamples and so that the driver can name them.
 
